@@ -12,6 +12,7 @@ From Coercion.Base Require Import Plan.
 From Coercion.Engine Require Import Shape Event Action ChecksRun Seq Block Final PlanSM Auto Accept AutoLemmas.
 From Coercion.C06 Require Import Groups Steps.
 From Coercion.Resume Require Import Resume MonRecover ResumeLemmas ReleaseProofs Frame NoReexec.
+From Coercion.ImgWf Require Import CrashImage.
 From Coercion.Chain Require Import FixMem ResumedInv.
 From Coercion.C10x Require Import Cells GroupInv MemInv PlanInv.
 
@@ -340,3 +341,138 @@ Proof.
   - discriminate.
   - discriminate.
 Qed.
+
+(* ------------------------------------------------------------------ the resumed automaton *)
+Lemma finished_chk sh r sc g : finished_mem sh r (OChecks sc g) = mget r (OChecks sc g).
+Proof.
+  unfold finished_mem, finish_mem, mget, over. simpl.
+  rewrite ifind_app, ifind_blocks_seq; [reflexivity|]. intros b' E. discriminate.
+Qed.
+
+Section Resumed.
+Variable sh : shape.
+Variable I : dimg.
+(* what the section needs to know about the crash repair (discharged in DeferredSound.v) *)
+Hypothesis Hentry : forall fl, is_terminal (pln_st sh I fl) = true -> pd_ok sh (mst (FixMem.m0 sh I)).
+Hypothesis Hm0 : forall g, gpresent sh g = true -> ist I (pchk g) <> Running -> mst (FixMem.m0 sh I) (pchk g) = ist I (pchk g).
+
+Lemma DI_rhandle d r e r' : Inv sh I r -> WAR sh r -> DI sh I r -> rhandle d sh r e = Some r' -> DI sh I r'.
+Proof.
+  intros Hi Hwa HD H. pose proof (i_live _ _ _ Hi) as Hl. destruct Hwa as [Hwa|Hwa]; [contradiction|]. unfold rhandle in H.
+  assert (Hev : forall e0 s', (forall o stt n ok rs, e0 <> EvWrite o stt n ok rs) -> handle sh (r_s r) e0 = Some s' -> DI sh I (with_s r s'))
+    by (intros; eapply DI_event; eauto).
+  destruct e as [a|a o|o stt n ok rs|snap|fin].
+  - assert (H' : option_map (with_s r) (handle sh (r_s r) (EvStart a)) = Some r') by (destruct (r_ph r); [contradiction|exact H..]).
+    apply option_map_some in H' as (s' & H' & ->). eapply Hev; [|exact H']. discriminate.
+  - assert (H' : option_map (with_s r) (handle sh (r_s r) (EvEnd a o)) = Some r') by (destruct (r_ph r); [contradiction|exact H..]).
+    apply option_map_some in H' as (s' & H' & ->). eapply Hev; [|exact H']. discriminate.
+  - assert (H' : r_write sh r o stt n ok rs = Some r') by (destruct (r_ph r); [contradiction|exact H..]). clear H.
+    assert (Hrl : released (r_s r) = false) by (unfold r_write in H'; destruct (released (r_s r)); [discriminate|reflexivity]).
+    destruct (r_write_cases _ _ _ _ _ _ _ _ H') as [Hshape [(s' & Hw' & ->)|[(b & q & b1 & qs & rest & -> & -> & Hph & Hq & Hu & ->)|[-> ->]]]].
+    + eapply DI_hwrite; eauto.
+    + rewrite commit_eq. destruct (b_seq_upd_spec _ _ _ _ Hu) as (x & y & _ & _ & ->).
+      eapply DI_frame; [| | | | |exact HD]; cbn [r_s r_ph with_mem with_s]; auto;
+        try (intro g; unfold ist, put; cbn; reflexivity); intro g; rewrite mget_write; apply mupd_other; discriminate.
+    + rewrite commit_eq. eapply DI_frame; [| | | | |exact HD]; cbn [r_s r_ph with_mem with_s]; auto;
+        try (intro g; unfold ist, put; cbn; reflexivity); intro g; rewrite mget_write; apply mupd_other; discriminate.
+  - assert (H' : option_map (with_s r) (h_read sh (r_s r) snap) = Some r') by (destruct (r_ph r); [contradiction|exact H..]).
+    apply option_map_some in H' as (s' & H' & ->). eapply (Hev (EvRead snap)); [discriminate|exact H'].
+  - assert (H' : r_release d sh r fin = Some r') by (destruct (r_ph r); [contradiction|exact H..]). clear H.
+    unfold r_release in H'. destruct (r_ph r) eqn:Ep; [contradiction|discriminate|].
+    destruct (all_flushed sh r && quiet d sh (r_I r) (mget r)); [|discriminate].
+    apply option_map_some in H' as (s' & H & ->). eapply (Hev (EvRelease fin)); [discriminate|exact H].
+Qed.
+
+Lemma DI_flush r e r' : DI sh I r -> flush sh r e = Some r' -> DI sh I r'.
+Proof.
+  intros [De Dl Df Dr Dp] H. unfold flush in H.
+  assert (G : forall o stt n ok, cell_eqb (mget r o) (wcell stt n ok) = true -> DI sh I (with_s r (put (r_s r) o stt n ok))).
+  { intros o stt n ok Hc. apply cell_eqb_eq in Hc. constructor; cbn [r_s r_ph with_s s_g s_ph s_thr put with_img]; auto.
+    intros g Hp Hnr. change (mget (with_s r (put (r_s r) o stt n ok))) with (mget r). unfold ist, put, with_img in *. cbn [s_img] in *.
+    destruct (obj_eqb o (pchk g)) eqn:E.
+    - apply obj_eqb_eq in E. subst o. rewrite iget_iset_same. unfold mst. now rewrite Hc.
+    - assert (Hne : o <> pchk g) by (intro Q; subst o; rewrite (proj2 (obj_eqb_eq _ _) eq_refl) in E; discriminate).
+      rewrite iget_iset_other in * by exact Hne. now apply De. }
+  destruct (r_ph r); [discriminate| |];
+    (destruct e; try discriminate; destruct o; try discriminate;
+     match type of H with (if ?c then _ else _) = _ => destruct c eqn:Ec; [|discriminate] end; injection H as <-;
+     apply G; apply andb_true_iff in Ec as [Ec _]; apply andb_true_iff in Ec as [_ Ec]; exact Ec).
+Qed.
+
+Lemma plan_gtab_closed m g n v :
+  tget (plan_gtab sh m) g = GIdle (S n) (Some v) ->
+  is_terminal (mst m (pchk g)) = true /\ (v = true -> mst m (pchk g) = Completed).
+Proof.
+  unfold plan_gtab. destruct g; cbn [tget t_bypass t_pre t_cont t_post t_deferred]; try discriminate.
+  - destruct (is_terminal (mst m (OChecks SPlan GPost))) eqn:T; [|discriminate]. unfold skipped. intro H. injection H as _ <-.
+    split; [exact T|]. intro Q. now apply status_eqb_eq.
+  - destruct (is_terminal (mst m (OChecks SPlan GDeferred))) eqn:T; [|discriminate]. unfold skipped. intro H. injection H as _ <-.
+    split; [exact T|]. intro Q. now apply status_eqb_eq.
+Qed.
+
+Lemma DI_start_recover r todo :
+  r_pl r = pln_of sh I ->
+  (forall g, gpresent sh g = true -> ist (s_img (r_s r)) (pchk g) <> Running -> mst (mget r) (pchk g) = ist (s_img (r_s r)) (pchk g)) ->
+  (forall g, mget r (pchk g) = FixMem.m0 sh I (pchk g)) ->
+  DI sh I (start_recover sh r todo).
+Proof.
+  intros Hpl He Hf. destruct todo as [|[b qs] rest].
+  - simpl. unfold take_entry. set (m := finished_mem sh r).
+    assert (Hm : forall g, m (pchk g) = mget r (pchk g)) by (intro g; apply finished_chk).
+    constructor; cbn [r_s r_ph s_img s_g s_ph s_thr].
+    + intros g Hp Hnr. change (mget _) with m. unfold mst. rewrite Hm. now apply He.
+    + intros g n v Hp Ht. change (mget _) with m. exact (plan_gtab_closed m g n v Ht).
+    + intros todo Ht. discriminate.
+    + intros todo Ht. discriminate.
+    + intro Hp. change (mget _) with m.
+      assert (Hmp : mst m OPlan = pln_st sh I (r_fails r)).
+      { unfold m, mst, pln_st, finished_mem, finish_mem. rewrite over_cons_same. now rewrite Hpl. }
+      assert (Ht : is_terminal (pln_st sh I (r_fails r)) = true).
+      { rewrite <- Hmp. destruct (mst m OPlan); simpl in Hp; destruct Hp; try discriminate; reflexivity. }
+      apply (pd_ok_ext sh (mst (FixMem.m0 sh I))); [unfold mst; now rewrite Hm, Hf|unfold mst; now rewrite Hm, Hf|].
+      eapply Hentry; eauto.
+  - simpl. constructor; cbn [r_s r_ph s_img s_g s_ph s_thr]; auto.
+    + intros g n v _ Ht. destruct g; discriminate.
+    + intros todo Ht. split; [intros []; reflexivity|]. auto.
+    + intros [Q|Q]; discriminate.
+Qed.
+
+Lemma DI_reps r r1 : Inv sh I r -> DI sh I r -> reps sh r = Some r1 -> DI sh I r1.
+Proof.
+  intros Hi HD H. pose proof HD as [De Dl Df Dr Dp]. unfold reps in H. destruct (r_ph r) as [| [|[b qs] todo] |] eqn:Ep; try discriminate.
+  - destruct (forallb s_done (b_seqs (s_b (r_s r)))); [|discriminate]. injection H as <-.
+    destruct (i_const _ _ _ Hi) as [_ Hpl]. apply DI_start_recover; cbn [r_pl r_s]; auto.
+    intro g. change (mget _) with (mget r). eapply Df; eauto.
+  - apply option_map_some in H as (s2 & H & ->). unfold rp_eps in H.
+    destruct (p_eps sh (r_s r)) as [s'|] eqn:Ee; [|discriminate]. injection H as <-.
+    destruct (p_eps_spec _ _ _ Ee) as [Ei _].
+    set (s2 := if entered (r_s r) s' then r_enter sh (mget r) s' (s_cb s') else s').
+    assert (E2 : s_img s2 = s_img (r_s r) /\ s_g s2 = s_g s' /\ s_ph s2 = s_ph s' /\ s_thr s2 = s_thr s').
+    { unfold s2. destruct (entered (r_s r) s'); [|auto].
+      destruct (r_enter_spec sh (mget r) s' (s_cb s')) as (cb' & -> & _). cbn. auto. }
+    destruct E2 as (E1 & E2 & E3 & E4).
+    assert (Lnew : forall g n v, gpresent sh g = true -> tget (s_g s') g = GIdle (S n) (Some v) ->
+                   is_terminal (mst (mget r) (pchk g)) = true /\ (v = true -> mst (mget r) (pchk g) = Completed)).
+    { intros g n v Hp Ht. destruct (p_eps_groups _ _ _ Ee g) as [Q|Q].
+      - rewrite Q in Ht. exact (Dl g n v Hp Ht).
+      - destruct (g_settle_closed _ _ _ _ _ Q Ht) as [Q2|Q2].
+        + rewrite <- Q2 in Ht. exact (Dl g n v Hp Ht).
+        + destruct (vs_terminal v) as (T1 & T2 & T3). rewrite De; [rewrite Q2; auto|exact Hp|rewrite Q2; exact T3]. }
+    constructor; cbn [r_s r_ph with_s]; change (mget (with_s r s2)) with (mget r).
+    + intros g Hp Hnr. rewrite E1 in *. now apply De.
+    + intros g n v Hp Ht. rewrite E2 in Ht. exact (Lnew g n v Hp Ht).
+    + intros todo Ht. congruence.
+    + intros todo Ht. congruence.
+    + rewrite E3. intro Hp. destruct (p_eps_to_end _ _ _ Ee Hp) as [[Hb (n & Hn)]|[Hd|(n & v & Hn)]].
+      * left. split; [exact Hb|]. exact (proj2 (Lnew _ _ _ Hb Hn) eq_refl).
+      * right. left. exact Hd.
+      * destruct (gpresent sh GDeferred) eqn:Hd; [|right; left; exact Hd]. right. right. exact (proj1 (Lnew _ _ _ Hd Hn)).
+Qed.
+
+Lemma DI_rinit rs r0 : ist I OPlan = Running -> rinit sh I rs = Some r0 -> DI sh I r0.
+Proof.
+  intros Hp H. unfold rinit in H. rewrite Hp in H. simpl in H.
+  destruct (negb (resumable_ok (pln_of sh I))); [discriminate|]. injection H as <-.
+  apply DI_start_recover; cbn [r_pl r_s s_img]; auto.
+Qed.
+End Resumed.
